@@ -138,6 +138,9 @@ type RecState struct {
 	// LogReads controls whether get/loadoffset are recorded (they always pass the gate).
 	LogReads bool
 	seq      int
+	// FailOp, when set, is asked before every get/set: a non-nil error is returned to the caller instead of
+	// performing the access (an I/O error of the state database at exactly that call).
+	FailOp func(op, key string) error
 }
 
 func NewRecState(inner state.State, topic string) *RecState {
@@ -178,6 +181,11 @@ func (r *RecState) record(who, op, key string, val []byte) {
 
 func (r *RecState) Get(key string) ([]byte, error) {
 	who := r.pass("get", key, nil)
+	if f := r.FailOp; f != nil {
+		if err := f("get", key); err != nil {
+			return nil, err
+		}
+	}
 	v, err := r.Inner.Get(key)
 	if r.LogReads {
 		r.record(who, "get", key, v)
@@ -187,6 +195,11 @@ func (r *RecState) Get(key string) ([]byte, error) {
 
 func (r *RecState) GetOrError(key string) ([]byte, error) {
 	who := r.pass("get", key, nil)
+	if f := r.FailOp; f != nil {
+		if err := f("get", key); err != nil {
+			return nil, err
+		}
+	}
 	v, err := r.Inner.GetOrError(key)
 	if r.LogReads {
 		r.record(who, "get", key, v)
@@ -196,6 +209,12 @@ func (r *RecState) GetOrError(key string) ([]byte, error) {
 
 func (r *RecState) Set(key string, value []byte) error {
 	who := r.pass("set", key, value)
+	if f := r.FailOp; f != nil {
+		if err := f("set", key); err != nil {
+			r.record(who, "set-failed", key, value)
+			return err
+		}
+	}
 	err := r.Inner.Set(key, value)
 	if err == nil {
 		r.mu.Lock()
